@@ -8,6 +8,7 @@ import TcVerif.Driver.JudgeTask
 import TcVerif.Driver.Seal
 import TcVerif.Driver.Backend
 import TcVerif.Driver.Wire
+import TcVerif.Driver.CloudConc
 
 open Tc.Driver
 
@@ -204,6 +205,28 @@ partial def loopJudgeWire (h : IO.FS.Stream) (out : IO.FS.Stream) (j : WJ) : IO 
   for o in outs do out.putStrLn o
   loopJudgeWire h out j'
 
+partial def loopCloudConc (h : IO.FS.Stream) (out : IO.FS.Stream) (st : CCState) : IO Unit := do
+  let line ← h.getLine
+  if line.isEmpty then return ()
+  if line.startsWith "#" then
+    out.putStrLn line.trimAscii.toString
+    loopCloudConc h out (if line.startsWith "# case" then {} else st)
+  else
+    out.putStrLn ("> " ++ line.trimAscii.toString)
+    let (st', outs) := ccLine st line
+    for o in outs do
+      out.putStrLn o
+    loopCloudConc h out st'
+
+partial def loopJudgeCloudConc (h : IO.FS.Stream) (out : IO.FS.Stream) (j : CJ) : IO Unit := do
+  let line ← h.getLine
+  if line.isEmpty then
+    for o in cjFlush j do out.putStrLn o
+    return ()
+  let (j', outs) := cjLine j (line.dropEndWhile (· == '\n')).toString
+  for o in outs do out.putStrLn o
+  loopJudgeCloudConc h out j'
+
 def main (args : List String) : IO UInt32 := do
   let stdin ← IO.getStdin
   let stdout ← IO.getStdout
@@ -217,6 +240,8 @@ def main (args : List String) : IO UInt32 := do
   | ["model", "seal"] => loopSeal stdin stdout {} true; return 0
   | ["sealgen"] => loopSeal stdin stdout {} false; return 0
   | ["judge", "seal"] => loopJudgeSeal stdin stdout "" "" []; return 0
+  | ["model", "cloudconc"] => loopCloudConc stdin stdout {}; return 0
+  | ["judge", "cloudconc"] => loopJudgeCloudConc stdin stdout {}; return 0
   | ["model", "wire"] => loopWire stdin stdout; return 0
   | ["judge", "wire"] => loopJudgeWire stdin stdout {}; return 0
   | ["model", "backend"] => loopBackend stdin stdout {}; return 0
